@@ -15,6 +15,7 @@ use vstd::prelude::*;
 use vstd::utf8::*;
 use vstd::string::*;
 use vstd::std_specs::char::is_white_space;
+use std::ops::Range;
 
 //@include prelude/tstr_mod.rs
 //@include prelude/tagnorm_auto.rs
@@ -360,6 +361,22 @@ proof fn lemma_literals()
     assert(utf8("   "@) =~= sp(3));
 }
 
+/// `inp` with `n` bytes at `p` replaced by `n` spaces is `inp` blanked at `p` (proved, explicit cases)
+proof fn lemma_splice_blanked(inp: Seq<u8>, out: Seq<u8>, p: int, n: int)
+    requires
+        0 <= p && 0 <= n && p + n <= inp.len(),
+        out == inp.subrange(0, p) + sp(n as nat) + inp.subrange(p + n, inp.len() as int),
+    ensures
+        blanked_at(inp, out, p, n),
+{
+    assert(out.len() == inp.len());
+    assert forall|i: int| 0 <= i < inp.len() implies #[trigger] out[i] == (if p <= i < p + n { 0x20u8 } else { inp[i] }) by {
+        if i < p { assert(out[i] == inp.subrange(0, p)[i]); }
+        else if i < p + n { assert(out[i] == sp(n as nat)[i - p]); }
+        else { assert(out[i] == inp.subrange(p + n, inp.len() as int)[i - (p + n)]); }
+    }
+}
+
 /// what `replacen(pat, spaces, 1)` yields when `spaces` is as long as `pat`
 proof fn lemma_replace_first(inp: Seq<u8>, out: Seq<u8>, pat: Seq<u8>, n: nat)
     requires
@@ -374,6 +391,7 @@ proof fn lemma_replace_first(inp: Seq<u8>, out: Seq<u8>, pat: Seq<u8>, n: nat)
 {
     assert forall|p: int| #[trigger] first_occ(inp, p, pat) implies blanked_at(inp, out, p, n as int) by {
         assert(occurs_at(inp, p, pat));
+        lemma_splice_blanked(inp, out, p, n as int);
     }
     if exists|q: int| #[trigger] occurs_at(inp, q, pat) {
         let q0 = choose|q: int| #[trigger] occurs_at(inp, q, pat);
@@ -738,6 +756,43 @@ verif_comment_text
 //@chain rule=E13 find=<<.rfind(>> to=verif_rfind_ascii_char argkind=other count=all optional=1
 //@strslice rule=E13 from=verif_str_from to=verif_str_to range=verif_str_range
 //@chain rule=E13 find=<<.find(>> to=verif_find_pred argkind=other count=all extra=<<Ghost(md_delim())>>
+//@end
+
+
+// ---------------------------------------------------------------------------------------------
+// N7 — `MdParser::parse_html_comments` (markdown.rs): the statements that move a comment found inside
+// an html block (positions relative to the block) to file positions. Slice: the loop body up to the
+// `push`; `node.start_position().row` / `node.start_byte()` (tree-sitter FFI) become parameters.
+
+//@item file=src/lib.rs kind=struct name=Position
+//@item file=src/language_parsers/mod.rs kind=struct name=Comment
+
+/// T-ext bounds: block row + comment line and block start byte + comment offset are file positions,
+/// hence fit `usize` (both are bounded by the file size).
+pub open spec fn n7_fits(c: Comment, row: usize, start_byte: usize) -> bool {
+    &&& c.position_range.start.line + row <= usize::MAX
+    &&& c.position_range.end.line + row <= usize::MAX
+    &&& c.source_range.start + start_byte <= usize::MAX
+    &&& c.source_range.end + start_byte <= usize::MAX
+}
+
+//@unit id=N7 file=src/language_parsers/markdown.rs fn=<<impl<C: CommentsParser> MdParser<C>::parse_html_comments>> slice_from=<<comment.position_range.start.line>> slice_until=<<all_html_comments.push(comment);>>
+//@wrapper
+fn n7_shift_html_comment(comment: &mut Comment, verif_row: usize, verif_start_byte: usize)
+    requires
+        n7_fits(*old(comment), verif_row, verif_start_byte), // [N7.pre.file_positions_fit_usize]
+    ensures
+        final(comment).position_range.start.line == old(comment).position_range.start.line + verif_row, // [N7.post.start_line_shifted_by_block_row]
+        final(comment).position_range.end.line == old(comment).position_range.end.line + verif_row, // [N7.post.end_line_shifted_by_block_row]
+        final(comment).position_range.start.character == old(comment).position_range.start.character // [N7.post.columns_unchanged]
+            && final(comment).position_range.end.character == old(comment).position_range.end.character,
+        final(comment).source_range.start == old(comment).source_range.start + verif_start_byte, // [N7.post.source_range_shifted_by_block_start]
+        final(comment).source_range.end == old(comment).source_range.end + verif_start_byte, // [N7.post.source_range_end_shifted_by_block_start]
+        final(comment).comment_text == old(comment).comment_text, // [N7.post.text_unchanged]
+//@edit rule=SLICE find=<<node.start_position().row>> count=all
+verif_row
+//@edit rule=SLICE find=<<node.start_byte()>> count=all
+verif_start_byte
 //@end
 
 } // verus!
